@@ -923,7 +923,8 @@ func toSubtitlesSTL(d stlDoc, meta string) *astisub.Subtitles {
 			STLMaximumNumberOfDisplayableCharactersInAnyTextRow: &mnc, STLMaximumNumberOfDisplayableRows: &mnr, STLCountryOfOrigin: g.CO, STLPublisher: g.PUB, STLEditorName: g.EN,
 			STLEditorContactDetails: g.ECD, Language: stlLangs[g.LC], STLTimecodeStartOfProgramme: time.Duration(ratCeilNs(g.TCP.exactNs(rate)))}
 	case "inherited":
-		s.Metadata = &astisub.Metadata{Title: d.GSI.OPT, TTMLCopyright: "c", SSAScriptType: "v4.00", Language: stlLangs[d.GSI.LC]}
+		// (a frame rate the format has no code for, as a TTML document may declare: the file is a 25 fps file)
+		s.Metadata = &astisub.Metadata{Title: d.GSI.OPT, TTMLCopyright: "c", SSAScriptType: "v4.00", Language: stlLangs[d.GSI.LC], Framerate: []int{0, 24, 50, 60}[len(d.Cues)%4]}
 	}
 	tcp := int64(0)
 	if meta == "stl" {
